@@ -18,18 +18,28 @@ PROPS = {
     },
     "C07": {
         "level_text": "Proof, for any number and sizes of functions / variables / couplings (unbounded, linear integer arithmetic), that the Jacobian "
-                      "assembly places every existing partial Jacobian jac[f_a][v_b] at the prefix-sum offsets (off_r(a), off_c(b)), zeros elsewhere and "
-                      "-1 on the diagonal of the residual blocks f_a = v_b, with shape (sum sizes(functions), sum sizes(variables)); that split_jac is "
-                      "the inverse column slicing; that AUTO resolves to DIRECT iff n_variables <= n_functions.",
-        "level_note": "Trusted: pyvc, z3, reals for floats. ASSUMED (not verified): the block-placement contracts of scipy.sparse eye / csr_matrix / bmat "
-                      "(pyvc/plug_np_c07.py), the shapes of the disciplines' partial Jacobians agree with `sizes`.",
+                      "assembly (generator, block grid, matrix representation) places every existing partial Jacobian jac[f_a][v_b] at the prefix-sum "
+                      "offsets (off_r(a), off_c(b)), zeros elsewhere and -1 on the diagonal of the residual blocks f_a = v_b, with shape "
+                      "(sum sizes(functions), sum sizes(variables)), without touching the disciplines' Jacobians; that split_jac is the inverse column "
+                      "slicing (exact key sets); that AUTO resolves to DIRECT iff n_variables <= n_functions; and, over an abstract matrix ring, that "
+                      "CoupledSystem._direct_mode (column by column) and _adjoint_mode (row by row, transposed system) both return "
+                      "dF/dx - dF/dy (dR/dy)^-1 dR/dx for every requested function, hence agree with each other and with the closed form.",
+        "level_note": "Trusted: pyvc, z3, reals for floats. ASSUMED (not verified, listed per function in the evidence): the block-placement contracts of "
+                      "scipy.sparse eye / csr_matrix / bmat (pyvc/plug_np_c07.py); the textbook identities of the matrix ring (plug_np_c07.ring_axioms: "
+                      "row/column of products, (XY)^T = Y^T X^T, (X^T)^-1 = (X^-1)^T, associativity, extensionality by rows/columns); an exact linear "
+                      "solver (solution = lhs^-1 rhs for every algorithm/option, invertible lhs); the shapes of the disciplines' partial Jacobians agree "
+                      "with `sizes`. Induction lemmas (prefix-sum congruence / monotonicity, last occurrence) are proved as base + step SMT lemmas. One known "
+                      "finding (IndexError for empty functions/variables), see known_findings.json.",
         "design_ref": "DESIGN.md §4 C07",
         "modules": ["contracts.c07_assembly"],
         "assumptions": ["scipy.sparse.eye(n) is the n x n identity", "csr_matrix((r, c)) is the r x c zero matrix; csr_matrix(m) has the entries of m",
                         "bmat(blocks) places block (a, b) at the prefix sums of the block-row heights / block-column widths, zeros where a block is None",
-                        "jac[f][v].shape == (sizes[f], sizes[v]) for the linearized disciplines (precondition)"],
+                        "jac[f][v].shape == (sizes[f], sizes[v]) for the linearized disciplines (precondition)",
+                        "matrix ring identities (22 axioms listed in plug_np_c07.ring_axioms)", "LinearSolverLibraryFactory.execute solves lhs x = rhs exactly (lhs invertible)",
+                        "shape (broadcast) errors of row/column assignments are not modelled in the ring model"],
         "not_covered": ["LINEAR_OPERATOR representation (AssembledJacobianOperator)", "JacobianOperator partial Jacobians", "iterative-solver accuracy, conditioning",
-                        "total_derivatives end to end", "compute_sizes", "residuals", "plot_dependency_jacobian"],
+                        "LU variants (_direct_mode_lu, _adjoint_mode_lu) and the dispatchers direct_mode / adjoint_mode", "compute_newton_step",
+                        "_compute_diff_ios_and_couplings (cache key), _check_inputs", "total_derivatives end to end", "compute_sizes", "residuals", "plot_dependency_jacobian"],
     },
     "C04": {
         "level_text": "Proof, for every database (any number of points, missing values), tolerance and constraint list, that constraint satisfaction and "
@@ -73,13 +83,35 @@ PROPS = {
         "level_text": "Proof, function by function and for all inputs, of the database lookup / compute / store protocol of ProblemFunction: a recorded point is "
                       "served from the database without calling the user's callables (ghost call log unchanged), a miss returns what the evaluation "
                       "sequence computes and records exactly that value (the unnormalised Jacobian in the normalised case) under the physical point, "
-                      "every other database entry untouched; Database.store / get_function_value as whole-map postconditions.",
+                      "every other database entry untouched; Database.store / get_function_value as whole-map postconditions. "
+                      "Composition: EvaluationProblem._preprocess_function (all five branches, any function / dense linear function) hands the ProblemFunction "
+                      "exactly F o R? o U? and normalize_grad? o dense? o J o R? o U? as selected by (normalized, round_ints, sparse support), the matching "
+                      "with_normalized_inputs flag, the database or None, counter and store_jacobian; preprocess_functions keeps the rounding option iff SOME "
+                      "design variable has an integer component, replaces every function of every collection and every named function by its preprocessed "
+                      "version with these flags (physical inputs for new-iteration observables), and does nothing when already preprocessed (loop invariant, "
+                      "any number of functions). MDOLinearFunction.normalize: scaled coefficients (dense matrix: A diag(s); CSR: data[p] s[indices[p]] in fresh "
+                      "arrays), offset computed from the ORIGINAL coefficients, result.func(xn) = self.func(U(xn)) by an induction lemma, and the frame: "
+                      "the coefficients and every attribute of self but last_eval/dim are unchanged.",
         "level_note": "Trusted: pyvc, z3; arrays are opaque contents (HashableNdarray equality = content equality, byte-level caveats such as -0.0/dtype ignored); "
                       "the user's callables are deterministic uninterpreted functions; unnormalize_vect/normalize_grad/unnormalize_grad are uninterpreted here "
-                      "(their arithmetic is proved under C02). Not covered: _preprocess_function (composition of the sequences), sparse Jacobians, tolerance lookup.",
+                      "(their arithmetic is proved under C02). Preprocessing part: precise numpy model for dense linear functions, scipy CSR matrices "
+                      "modelled abstractly (three mutable heap arrays, CSR matrix-vector product uninterpreted: pyvc/plug_c01.py); the ProblemFunction constructor is a "
+                      "record model capturing its arguments; ASSUMED contracts: DesignSpace.get_lower_bounds/get_upper_bounds/convert_dict_to_array(normalize) (abstract "
+                      "view of the space), Functions.__check_function_type, EvaluationProblem.check, expression-string builders of MDOLinearFunction, and the abstract "
+                      "summary pp(f, flags) of _preprocess_function used inside preprocess_functions (functions are opaque identities there; collections of "
+                      "fixed shapes [observables, new_iter_observables] and [constraints, observables, new_iter_observables] + `_objective`). "
+                      "Not covered: sparse linear function at the _preprocess_function call site, sparse Jacobians at evaluation time, tolerance lookup.",
         "design_ref": "DESIGN.md §4 C01",
         "modules": ["contracts.c01_c03_evaluation", "contracts.c01_preprocessing"],
-        "not_covered": ["EvaluationProblem._preprocess_function", "MDOLinearFunction.normalize", "sparse Jacobian branches", "Database tolerance > 0 lookup"],
+        "assumptions": ["DesignSpace.get_lower_bounds()/get_upper_bounds() return the bound vectors, convert_dict_to_array(normalize) the per-component normalisation policies",
+                        "ProblemFunction.__init__ stores its arguments (record model); it passes f_type=function.f_type",
+                        "csr_matvec: the CSR matrix-vector product is a function of the contents of indptr/indices/data and of the vector (row sums not interpreted)",
+                        "MDOFunction.generate_input_names, MDOLinearFunction._generate_1d_expr/_generate_nd_expr only build strings",
+                        "EvaluationProblem.check only validates (may rewrite differentiation_step); Functions.__check_function_type raises iff the type is not authorized",
+                        "the linear function is defined over the design space (coefficients.shape[1] == dimension) and its offset has one entry per row (class invariant)"],
+        "not_covered": ["_preprocess_function with a SPARSE linear function (normalize@sparse is verified on its own)", "row-sum semantics of CSR products",
+                        "ProblemFunction.__init__ body (selection of _compute_*_db[_norm], gradient approximator replacing J-seq)", "_convert_array_to_dense (assumed value-preserving)",
+                        "sparse Jacobian branches at evaluation time", "Database tolerance > 0 lookup", "problems whose _sequence_of_functions / _function_names have another shape than the two verified ones"],
     },
     "C03": {
         "level_text": "Proof of the evaluation-budget mechanism on gemseo's side of the algorithm/problem interface, hence for every algorithm: each "
